@@ -642,5 +642,12 @@ def shrink(case, il, why, run):
 
 
 THEOREMS += [
+    "C17_canonical_document: forall ml m, emit_value_doc ml m = sections_of ml true m /\\ emit_table_doc ml m = sections_of ml false m (three loops + DocumentFormatter + visit_nested_tables/visit_table = the reference document, every value, every map order)",
+    "C17_values_before_tables / C17_table_shape / C17_values_before_tables_doc: any table value in any entry order, written at any path: its own section (all its key/value lines) first, every later section strictly below its path",
+    "C17_any_order_decodes: wf v -> exists r, read_back (emit v) = Some r /\\ r = v up to the order of map entries (both printers, both layouts; the reader refuses duplicate keys / tables)",
+    "C17_any_order_same_value, C17_permutation_is_equiv: values equal up to map order (e.g. any permutation of a map's entries) decode to values equal up to map order",
+    "C17_decodes_to_v_sorted: under BTreeMap the decoded value is exactly v",
+    "C17_fixpoint: wf v -> (BTreeMap: v sorted) -> exists r, decode o (emit v) = Some r /\\ emit r = emit v, for o = BTreeMap and IndexMap, for to_string(&Value) and for Display of toml::Table (printing a parsed Table twice)",
+    "C17_plain_pretty: decode o (emit pretty v) = decode o (emit plain v) <> None",
     "C17_line_value_layout_free: the value a key/value line holds does not depend on the plain / pretty array layout",
 ]
